@@ -468,4 +468,69 @@ Proof.
     first [ exact (fx_diag_ne0 _ E) | apply fx_sub0 in E; congruence ].
 Qed.
 
+
+(** the foot is node j0 (distinct from the other nodes): the coefficients sum to one *)
+Lemma fx_lagrange_sum_one_on zPts j0 : (j0 < length zPts)%nat ->
+  (forall j, (j < length zPts)%nat -> j <> j0 -> nth j zPts 0 <> nth j0 zPts 0) ->
+  sumn (length zPts) (fun j => nth j (fx_lag_coeffs F K zPts (nth j0 zPts 0)) 0) = 1.
+Proof.
+  intros Hj0 Hd. rewrite (adv_sum_single F K HK (length zPts) _ j0 Hj0).
+  - rewrite (fx_lagrange_on_node zPts j0 Hj0 Hd j0 Hj0). rewrite Nat.eqb_refl. reflexivity.
+  - intros j Hj Hne. rewrite (fx_lagrange_on_node zPts j0 Hj0 Hd j Hj).
+    destruct (Nat.eqb_spec j j0); [contradiction|reflexivity].
+Qed.
+
+(** C10: the degree-5 Lagrange coefficients of any six pairwise distinct nodes sum to one, wherever the
+    foot is (on a node: through the [where] branch; off the nodes: the first barycentric form) *)
+Theorem fx_lagrange_sum_one x t0 t1 t2 t3 t4 t5 :
+  t0 <> t1 -> t0 <> t2 -> t0 <> t3 -> t0 <> t4 -> t0 <> t5 -> t1 <> t2 -> t1 <> t3 -> t1 <> t4 -> t1 <> t5 ->
+  t2 <> t3 -> t2 <> t4 -> t2 <> t5 -> t3 <> t4 -> t3 <> t5 -> t4 <> t5 ->
+  sumn 6 (fun j => nth j (fx_lag_coeffs F K [t0; t1; t2; t3; t4; t5] x) 0) = 1.
+Proof.
+  intros.
+  assert (On : forall j0, (j0 < 6)%nat -> x = nth j0 [t0; t1; t2; t3; t4; t5] 0 ->
+               sumn 6 (fun j => nth j (fx_lag_coeffs F K [t0; t1; t2; t3; t4; t5] x) 0) = 1).
+  { intros j0 Hj0 ->. apply (fx_lagrange_sum_one_on [t0; t1; t2; t3; t4; t5] j0 Hj0).
+    intros j Hj Hne. cbn [length] in Hj.
+    destruct j0 as [|[|[|[|[|[|?]]]]]]; try lia; destruct j as [|[|[|[|[|[|?]]]]]]; try lia; cbn [nth]; congruence. }
+  destruct (sp_eqb_spec F K HK x t0) as [E0|N0]; [apply (On 0%nat); [lia|exact E0]|].
+  destruct (sp_eqb_spec F K HK x t1) as [E1|N1]; [apply (On 1%nat); [lia|exact E1]|].
+  destruct (sp_eqb_spec F K HK x t2) as [E2|N2]; [apply (On 2%nat); [lia|exact E2]|].
+  destruct (sp_eqb_spec F K HK x t3) as [E3|N3]; [apply (On 3%nat); [lia|exact E3]|].
+  destruct (sp_eqb_spec F K HK x t4) as [E4|N4]; [apply (On 4%nat); [lia|exact E4]|].
+  destruct (sp_eqb_spec F K HK x t5) as [E5|N5]; [apply (On 5%nat); [lia|exact E5]|].
+  apply fx_lagrange_sum_one_off; assumption.
+Qed.
+
+(** C10: displacement of a whole number of cells and no twist: exact circular shift.  The foot is
+    stencil node j0; [f k m] is what the theta-spline of row m returns at every foot of theta_k
+    (exact interpolation, C08, enters only as this hypothesis). *)
+Theorem fx_integer_shift_exact nz shifts zPts (V : nat -> nat -> nat -> F) (f : nat -> nat -> F) j0 k i :
+  length zPts = length shifts -> (j0 < length zPts)%nat ->
+  (forall j, (j < length zPts)%nat -> j <> j0 -> nth j zPts 0 <> nth j0 zPts 0) ->
+  (forall m j, V m k j = f k m) ->
+  fx_new nz shifts (fx_lag_coeffs F K zPts (nth j0 zPts 0)) V k i = f k (fx_src nz i (nth j0 shifts 0%Z)).
+Proof.
+  intros Hl Hj0 Hd HV. apply fx_indicator_shift.
+  - rewrite fx_lag_coeffs_length. exact Hl.
+  - rewrite fx_lag_coeffs_length. exact Hj0.
+  - rewrite (fx_lagrange_on_node zPts j0 Hj0 Hd j0 Hj0), Nat.eqb_refl. reflexivity.
+  - intros j Hj Hne. rewrite fx_lag_coeffs_length in Hj. rewrite (fx_lagrange_on_node zPts j0 Hj0 Hd j Hj).
+    destruct (Nat.eqb_spec j j0); [contradiction|reflexivity].
+  - exact HV.
+Qed.
+
+(** C10: the stencil is centred on the foot, for either sign of the displacement: with q = zDist/dz,
+    shifts = floor(q) + (-2 .. 3)  and  s_2 <= q < s_3 *)
+Theorem fx_stencil_centred zDist dz : adv_trunc_ok F K ->
+  fx_shifts F K 6 zDist dz = map (Z.add (adv_floor F K (zDist / dz))) [-2; -1; 0; 1; 2; 3]%Z /\
+  ofZ (nth 2 (fx_shifts F K 6 zDist dz) 0%Z) <= zDist / dz /\
+  zDist / dz < ofZ (nth 3 (fx_shifts F K 6 zDist dz) 0%Z).
+Proof.
+  intros Htr. split; [reflexivity|].
+  destruct (adv_floor_spec F K HK (zDist / dz) Htr) as [H1 H2].
+  unfold fx_shifts. cbv zeta. change (fx_offsets 6) with [-2; -1; 0; 1; 2; 3]%Z. cbn [map nth].
+  rewrite Z.add_0_r. split; [exact H1|]. rewrite (adv_ofZ_add F K HK). exact H2.
+Qed.
+
 End FxTheory.
